@@ -45,6 +45,7 @@ impl Outcome {
 
 thread_local! {
     static LAST_PANIC: std::cell::RefCell<String> = std::cell::RefCell::new(String::new());
+    static GUARD_DEPTH: std::cell::Cell<u32> = std::cell::Cell::new(0);
 }
 
 /// Install a quiet panic hook that records message + location instead of printing.
@@ -58,6 +59,10 @@ pub fn install_panic_hook() {
             "<non-string panic>".to_string()
         };
         let loc = info.location().map(|l| format!("{}:{}", l.file(), l.line())).unwrap_or_default();
+        // a panic outside any guard is a harness error: make it visible
+        if GUARD_DEPTH.with(|d| d.get()) == 0 {
+            eprintln!("harness panic (outside guard): {} @ {}", msg, loc);
+        }
         LAST_PANIC.with(|p| *p.borrow_mut() = format!("{} @ {}", msg, loc));
     }));
 }
@@ -68,7 +73,10 @@ pub fn take_panic() -> String {
 
 /// Run a closure, converting a panic into Err(message @ file:line).
 pub fn guard<T>(f: impl FnOnce() -> T) -> Result<T, String> {
-    match catch_unwind(AssertUnwindSafe(f)) {
+    GUARD_DEPTH.with(|d| d.set(d.get() + 1));
+    let r = catch_unwind(AssertUnwindSafe(f));
+    GUARD_DEPTH.with(|d| d.set(d.get() - 1));
+    match r {
         Ok(v) => Ok(v),
         Err(_) => Err(take_panic()),
     }
@@ -126,10 +134,10 @@ impl Session {
     pub fn exec(&mut self, sql: &str) -> Outcome {
         let before = probes();
         let db = &mut self.db;
-        let out = match catch_unwind(AssertUnwindSafe(|| Self::dispatch(db, sql))) {
+        let out = match guard(|| Self::dispatch(db, sql)) {
             Ok(Ok(o)) => o,
             Ok(Err(e)) => Outcome::Err(e),
-            Err(_) => Outcome::Panic(take_panic()),
+            Err(p) => Outcome::Panic(p),
         };
         self.last_probes = probe_delta(&before);
         if self.record {
